@@ -35,6 +35,10 @@ type c18Job struct {
 	Name string
 	Args []string
 	Data []byte
+	// PairOf: this job evaluates `A, B` in ONE evaluation; jobs[PairOf[0]] and jobs[PairOf[1]] evaluate A and B
+	// alone. Isolation: stdout(pair) must be stdout(A) followed by stdout(B).
+	PairOf [2]int
+	IsPair bool
 }
 
 // c18Jobs: a deterministic list from the corpus (independent of VERIF_SEED so that goldens are comparable)
@@ -104,6 +108,40 @@ func c18Jobs(max int) []c18Job {
 			break
 		}
 	}
+	// two decodes with DIFFERENT per-call options inside one evaluation must not influence each other
+	addPair := func(name string, data []byte, a, b string) {
+		ia := len(jobs)
+		add(name, data, "-d", "bytes", "-c", a)
+		add(name, data, "-d", "bytes", "-c", b)
+		add(name, data, "-d", "bytes", "-c", "("+a+"), ("+b+")")
+		jobs[len(jobs)-1].IsPair = true
+		jobs[len(jobs)-1].PairOf = [2]int{ia, ia + 1}
+		add(name, data, "-d", "bytes", "-c", "("+b+"), ("+a+")")
+		jobs[len(jobs)-1].IsPair = true
+		jobs[len(jobs)-1].PairOf = [2]int{ia + 1, ia}
+	}
+	addPair("pair.csv", []byte("a;b,c\n1;2,3\n"), `tobytes | from_csv({comma:";"})`, `tobytes | from_csv`)
+	addPair("pair.xml", []byte(`<a x="1"><b>t</b><c/><b>u</b></a>`), `tobytes | from_xml({seq:true})`, `tobytes | from_xml`)
+	addPair("pair2.xml", []byte(`<a x="1"><b>t</b><c/><b>u</b></a>`), `tobytes | from_xml({array:true})`, `tobytes | from_xml({attribute_prefix:"_"})`)
+	for _, it := range corpus() {
+		if len(it.Data) > 30*1024 {
+			continue
+		}
+		done := false
+		for _, f := range it.Formats {
+			switch f {
+			case "mp4":
+				addPair(it.Path, it.Data, `tobytes | mp4({decode_samples:false}) | [.. | select(type=="number")] | length`, `tobytes | mp4 | [.. | select(type=="number")] | length`)
+				done = true
+			case "zip":
+				addPair(it.Path, it.Data, `tobytes | zip({uncompress:false}) | [..] | length`, `tobytes | zip | [..] | length`)
+				done = true
+			}
+		}
+		if done && len(jobs) > max+80 {
+			break
+		}
+	}
 	// JSON-decoded objects: iteration order must not depend on Go map order (was nondeterministic: gojqx.Object)
 	jsonDoc := []byte(`{"b":1,"a":2,"z":[1,{"q":1,"p":2}],"c":{"y":1,"x":2,"w":{"n":1,"m":2}},"k1":1,"k2":2,"k3":3,"k4":4,"k5":5}`)
 	add("object.json", jsonDoc, "-c", "[.[]], (to_entries | map(.key)), [paths], [..] ")
@@ -114,11 +152,43 @@ func c18Jobs(max int) []c18Job {
 	add("null", nil, "-n", "-r", "\"aGVsbG8=\" | from_base64 | tostring, (\"ff\" | from_hex | to_hex), ([1,2,3] | tojson)")
 	sort.SliceStable(jobs, func(i, j int) bool { return false })
 	if len(jobs) > max {
-		// keep a spread: every k-th
+		// keep a spread of the plain jobs (every k-th) and ALL pair groups (re-indexed)
+		needed := map[int]bool{}
+		for i, j := range jobs {
+			if j.IsPair {
+				needed[i], needed[j.PairOf[0]], needed[j.PairOf[1]] = true, true, true
+			}
+		}
+		var plain []int
+		for i := range jobs {
+			if !needed[i] {
+				plain = append(plain, i)
+			}
+		}
+		want := max - len(needed)
+		if want < 20 {
+			want = 20
+		}
+		keepIdx := map[int]bool{}
+		step := float64(len(plain)) / float64(want)
+		for i := 0; i < want && int(float64(i)*step) < len(plain); i++ {
+			keepIdx[plain[int(float64(i)*step)]] = true
+		}
+		for i := range needed {
+			keepIdx[i] = true
+		}
+		remap := map[int]int{}
 		var keep []c18Job
-		step := float64(len(jobs)) / float64(max)
-		for i := 0; i < max; i++ {
-			keep = append(keep, jobs[int(float64(i)*step)])
+		for i, j := range jobs {
+			if keepIdx[i] {
+				remap[i] = len(keep)
+				keep = append(keep, j)
+			}
+		}
+		for i := range keep {
+			if keep[i].IsPair {
+				keep[i].PairOf = [2]int{remap[keep[i].PairOf[0]], remap[keep[i].PairOf[1]]}
+			}
 		}
 		jobs = keep
 	}
@@ -145,7 +215,16 @@ type c18Out struct {
 
 // child modes: "seq:<seed>" (seed 0 = golden, natural order) and "conc:<G>:<procs>:<seed>"
 func c18Child(mode string, outPath string, nJobs int) {
-	jobs := c18Jobs(nJobs)
+	// the job list comes from a file written by the parent: building it here would resolve the process-wide
+	// registry (corpus index) before the start barrier, hiding first-use races
+	var jobs []c18Job
+	if b, err := os.ReadFile(os.Getenv("VERIF_C18_JOBS")); err == nil {
+		_ = json.Unmarshal(b, &jobs)
+	}
+	if len(jobs) == 0 {
+		fmt.Fprintln(os.Stderr, "no jobs file")
+		os.Exit(2)
+	}
 	out := c18Out{Mode: mode, Outputs: map[string]string{}}
 	parts := strings.Split(mode, ":")
 	var seed uint64
@@ -249,6 +328,10 @@ func c18Main(args []string) {
 		panic(err)
 	}
 	defer os.RemoveAll(dir)
+	jobsFile := filepath.Join(dir, "jobs.json")
+	if b, err := json.Marshal(jobs); err != nil || os.WriteFile(jobsFile, b, 0o644) != nil {
+		panic("cannot write jobs file")
+	}
 	type child struct {
 		mode string
 		out  string
@@ -283,7 +366,7 @@ func c18Main(args []string) {
 			sem <- struct{}{}
 			defer func() { <-sem }()
 			cmd := exec.Command(os.Args[0], "C18")
-			cmd.Env = append(os.Environ(), "VERIF_C18_CHILD="+c.mode, "VERIF_C18_OUT="+c.out, "GORACE=halt_on_error=0 exitcode=0 log_path="+c.race)
+			cmd.Env = append(os.Environ(), "VERIF_C18_CHILD="+c.mode, "VERIF_C18_OUT="+c.out, "VERIF_C18_JOBS="+jobsFile, "GORACE=halt_on_error=0 exitcode=0 log_path="+c.race)
 			b, err := cmd.CombinedOutput()
 			if err != nil {
 				c.err = fmt.Errorf("%v: %s", err, trunc(string(b), 3000))
@@ -315,6 +398,32 @@ func c18Main(args []string) {
 		if strings.HasPrefix(v, "PANIC") {
 			run.Violation("panic:golden", fmt.Sprintf("job %s panicked: %s", jobs[idx].Name, trunc(v, 1500)), nil)
 		}
+	}
+	stdoutOf := func(o string) (string, bool) {
+		i := strings.Index(o, "\n--stdout--\n")
+		k := strings.LastIndex(o, "\n--stderr--\n")
+		if i < 0 || k < i || !strings.HasPrefix(o, "exit=0\n") {
+			return "", false
+		}
+		return o[i+len("\n--stdout--\n") : k], true
+	}
+	for i, j := range jobs {
+		if !j.IsPair {
+			continue
+		}
+		p, ok1 := stdoutOf(gold[i])
+		a, ok2 := stdoutOf(gold[j.PairOf[0]])
+		b, ok3 := stdoutOf(gold[j.PairOf[1]])
+		run.Eval(1)
+		run.Count("pair-isolation-comparisons", 1)
+		if !ok1 || !ok2 || !ok3 {
+			run.Count("pair-isolation:skipped-nonzero-exit", 1)
+			continue
+		}
+		if p != a+b {
+			run.Violation("isolation:two-decodes-in-one-evaluation:"+c18Ext(j.Name), fmt.Sprintf("job [%s]: evaluating A then B in one evaluation gives\n%s\nbut A alone gives\n%s\nand B alone gives\n%s", j.Name, trunc(p, 400), trunc(a, 300), trunc(b, 300)), map[string]any{"job": j.Name})
+		}
+		run.Distinct("pair|" + j.Name)
 	}
 	run.Count("jobs", int64(len(jobs)))
 	run.Count("processes", int64(len(children)))
@@ -391,4 +500,12 @@ func firstDiff(a, b string) string {
 		}
 	}
 	return "  (no line differs?)"
+}
+
+func c18Ext(name string) string {
+	n := strings.SplitN(name, " ::", 2)[0]
+	if i := strings.LastIndexByte(n, '.'); i >= 0 {
+		return n[i+1:]
+	}
+	return "other"
 }
